@@ -82,6 +82,8 @@ func (r *defaultSingletonComponentRegistry) GetSingletonOrCreateByFactory(name s
 	r.logger().Tracef("create instance of singleton '%s'", name)
 	singleton, err := factory.GetComponent()
 	if err != nil {
+		// a failed creation leaves nothing behind: no in-creation mark, no early reference, no early factory
+		r.RemoveSingleton(name)
 		return nil, err
 	}
 	r.logger().Tracef("singleton '%s' finished creating", name)
